@@ -82,7 +82,8 @@ type ToolDef struct {
 type ToolOut struct {
 	Args   string   `json:"args"`
 	Chunks []string `json:"chunks"`
-	Fail   bool     `json:"fail,omitempty"` // the stream ends with an error item after the chunks (the tool fails when invoked)
+	Fail   bool     `json:"fail,omitempty"`  // the stream ends with an error item after the chunks (the tool fails when invoked)
+	Panic  bool     `json:"panic,omitempty"` // the tool panics as it is called (either form)
 }
 
 type Case struct {
@@ -225,6 +226,19 @@ func (m *fakeModel) WithTools(ts []*schema.ToolInfo) (model.ToolCallingChatModel
 	return n, nil
 }
 
+// the deprecated Model field beside a ToolCallingModel: never to be used
+type decoyModel struct{ touched atomic.Int32 }
+
+func (d *decoyModel) BindTools([]*schema.ToolInfo) error { d.touched.Add(1); return nil }
+func (d *decoyModel) Generate(context.Context, []*schema.Message, ...model.Option) (*schema.Message, error) {
+	d.touched.Add(1)
+	return nil, errors.New("DECOY#: the deprecated AgentConfig.Model was called although a ToolCallingModel is configured")
+}
+func (d *decoyModel) Stream(context.Context, []*schema.Message, ...model.Option) (*schema.StreamReader[*schema.Message], error) {
+	d.touched.Add(1)
+	return nil, errors.New("DECOY#: the deprecated AgentConfig.Model was called although a ToolCallingModel is configured")
+}
+
 // next records the call and returns the scripted step (nil = failure)
 func (m *fakeModel) next(ctx context.Context, input []*schema.Message) (*Step, int) {
 	rc := recOf(ctx)
@@ -347,6 +361,9 @@ func (c *Case) failsAtCall(defs []ToolDef, calls []TCall) bool {
 		if c.failsLate(cl.Args) && kindIn(defs, cl.Name) == "inv" {
 			return true
 		}
+		if c.panics(cl.Args) && kindIn(defs, cl.Name) != "" {
+			return true
+		}
 	}
 	return false
 }
@@ -359,6 +376,25 @@ func (c *Case) roundFails(defs []ToolDef, calls []TCall) bool {
 	for _, cl := range calls {
 		if c.failsLate(cl.Args) && kindIn(defs, cl.Name) != "" {
 			return true
+		}
+	}
+	return false
+}
+
+func (c *Case) hasPanickingTool() bool {
+	for _, o := range c.Outs {
+		if o.Panic {
+			return true
+		}
+	}
+	return false
+}
+
+// the tool panics as it is called
+func (c *Case) panics(args string) bool {
+	for _, o := range c.Outs {
+		if o.Args == args && len(o.Chunks) > 0 {
+			return o.Panic
 		}
 	}
 	return false
@@ -378,6 +414,9 @@ func (t *recTool) invoke(ctx context.Context, args string, opts ...tool.Option) 
 	if !t.record(ctx, t.name, args, opts...) {
 		return "", &toolErr{}
 	}
+	if t.c.panics(args) {
+		panic("TOOLPANIC#")
+	}
 	if t.c.failsLate(args) {
 		return "", &toolErr{}
 	}
@@ -387,6 +426,9 @@ func (t *recTool) invoke(ctx context.Context, args string, opts ...tool.Option) 
 func (t *recTool) stream(ctx context.Context, args string, opts ...tool.Option) (*schema.StreamReader[string], error) {
 	if !t.record(ctx, t.name, args, opts...) {
 		return nil, &toolErr{}
+	}
+	if t.c.panics(args) {
+		panic("TOOLPANIC#")
 	}
 	chunks := append([]string{}, t.c.toolChunks(t.name, args)...)
 	late := t.c.failsLate(args)
@@ -521,10 +563,16 @@ func buildAgent(c *Case) (*react.Agent, error) {
 		cfg.MessageModifier = react.NewPersonaModifier(c.Persona)
 	}
 	fm := &fakeModel{c: c, binds: new(int)}
+	var decoy *decoyModel
 	switch {
 	case c.SetupFault == "nomodel":
 	case c.ModelAPI == "toolcalling":
 		cfg.ToolCallingModel = fm
+	case c.ModelAPI == "both":
+		// both fields set: the ToolCallingModel is the agent's model, the deprecated Model is ignored
+		// (flow/agent/utils.go ChatModelWithTools) - it must be neither bound nor called
+		decoy = &decoyModel{}
+		cfg.ToolCallingModel, cfg.Model = fm, decoy
 	default:
 		cfg.Model = fm
 	}
@@ -536,6 +584,9 @@ func buildAgent(c *Case) (*react.Agent, error) {
 	var want []string
 	for _, d := range c.Tools {
 		want = append(want, d.Name)
+	}
+	if decoy != nil && decoy.touched.Load() > 0 {
+		return ag, errors.New("BINDTOOLS: the deprecated AgentConfig.Model was bound although a ToolCallingModel is configured")
 	}
 	if *fm.binds != 1 || !reflect.DeepEqual(fm.bound, want) {
 		return ag, fmt.Errorf("BINDTOOLS: the model was bound %d times, to the tools %v; configured %v", *fm.binds, fm.bound, want)
@@ -786,6 +837,23 @@ func runAgent(tg *target, c *Case, mode string) (o RunObs) {
 		}
 		o.HasEmits, o.FutEnd = true, futEnd
 	}
+	// a panic of the first call of a round (the tools node runs it on its own goroutine, without a
+	// recover) leaves the node before the goroutines of the other calls have finished - they were
+	// started and do run: give them time to be recorded
+	if c.hasPanickingTool() {
+		want := 0
+		for _, rnd := range c.specRunWith(-1, !tg.exported, mode == "stream").Rounds {
+			want += len(rnd)
+		}
+		for deadline := time.Now().Add(3 * time.Second); time.Now().Before(deadline); time.Sleep(time.Millisecond) {
+			rc.mu.Lock()
+			n := len(rc.execs)
+			rc.mu.Unlock()
+			if n >= want {
+				break
+			}
+		}
+	}
 	if !reflect.DeepEqual(renderAll(in), inBefore) {
 		o.InMut = true
 	}
@@ -1035,7 +1103,7 @@ func (c *Case) specRunWith(stopAt int, callOpts bool, stream bool) (o RunObs) {
 					failed = true
 				}
 			}
-			if c.failsLate(cl.Args) && kindIn(defs, cl.Name) != "" {
+			if (c.failsLate(cl.Args) || c.panics(cl.Args)) && kindIn(defs, cl.Name) != "" {
 				failed = true
 			}
 			out := strings.Join(c.toolChunks(cl.Name, cl.Args), "")
@@ -1343,7 +1411,14 @@ func (c *Case) coq(runs []string) string {
 		for i, ch := range o.Chunks {
 			cs[i] = S(ch)
 		}
-		outs = append(outs, lib.CoqPair(lib.CoqPair(S(o.Args), lib.CoqList(cs)), lib.CoqBool(o.Fail)))
+		flag := "0%N" // 0 answers, 1 fails after its chunks, 2 panics as it is called
+		switch {
+		case o.Panic:
+			flag = "2%N"
+		case o.Fail:
+			flag = "1%N"
+		}
+		outs = append(outs, lib.CoqPair(lib.CoqPair(S(o.Args), lib.CoqList(cs)), flag))
 	}
 	persona := "None"
 	if c.Persona != "" {
@@ -1483,7 +1558,7 @@ func genCase(r *lib.Rng, tier string) *Case {
 	if tier == "thorough" {
 		maxRounds = 12
 	}
-	c := &Case{Checker: "default", ModelAPI: r.Pick([]string{"chat", "toolcalling"}), IndexInWhole: r.Chance(1, 2), PipeStream: r.Chance(1, 2)}
+	c := &Case{Checker: "default", ModelAPI: r.Pick([]string{"chat", "toolcalling", "chat", "toolcalling", "both"}), IndexInWhole: r.Chance(1, 2), PipeStream: r.Chance(1, 2)}
 	if r.Chance(1, 2) {
 		c.Checker = "exact"
 	}
@@ -1516,7 +1591,14 @@ func genCase(r *lib.Rng, tier string) *Case {
 	if r.Chance(2, 5) {
 		for _, w := range r.Perm(len(argPool))[:r.Range(1, 3)] {
 			a := argPool[w]
-			c.Outs = append(c.Outs, ToolOut{Args: a, Chunks: genToolChunks(r), Fail: r.Chance(1, 12)})
+			o := ToolOut{Args: a, Chunks: genToolChunks(r)}
+			switch r.Intn(20) {
+			case 0, 1:
+				o.Fail = true
+			case 2:
+				o.Panic = true
+			}
+			c.Outs = append(c.Outs, o)
 			outArgs = append(outArgs, a)
 		}
 	}
@@ -1813,6 +1895,13 @@ func (engine) Run(ci any) lib.Result {
 		}
 	}
 	res.Tags = append(res.Tags, fmt.Sprintf("tool-fails-after-its-chunks:%v", lateFail))
+	toolPanic := false
+	for _, rnd := range gen.Rounds {
+		for _, cl := range rnd {
+			toolPanic = toolPanic || (c.panics(cl.Args) && kindIn(c.toolsOf(true), cl.Name) != "")
+		}
+	}
+	res.Tags = append(res.Tags, fmt.Sprintf("tool-panics:%v", toolPanic))
 	res.Tags = append(res.Tags, fmt.Sprintf("tool-result-empty:%v", emptyRes), fmt.Sprintf("tool-result-with-empty-chunk:%v", emptyChunk),
 		fmt.Sprintf("tool-result-from-table:%v", tabled))
 	if gen.Out.Class == "final" && gen.Out.Msg.Content == "" {
